@@ -1,6 +1,1 @@
 package main
-
-import "verif/harness/mon"
-
-func jsonMain(args mon.Args) { panic("todo") }
-func metaMain(args mon.Args) { panic("todo") }
